@@ -121,6 +121,53 @@ func strPairs(ps []pair) string {
 	return "{" + strings.Join(xs, " ") + "}"
 }
 
+// per-case registry: block CIDR -> small index, and the block of every address ever seen allocated
+var blkIndex = map[string]int{}
+var addrBlk = map[string]int{}
+var addrSeen []addr
+
+func blockIdx(cidr string) int {
+	if i, ok := blkIndex[cidr]; ok {
+		return i
+	}
+	i := len(blkIndex)
+	blkIndex[cidr] = i
+	return i
+}
+func resetBlocks() { blkIndex, addrBlk, addrSeen = map[string]int{}, map[string]int{}, nil }
+func coqBlkMap() string {
+	xs := make([]string, len(addrSeen))
+	for i, a := range addrSeen {
+		xs[i] = fmt.Sprintf("(%s, %d%%N)", a.coq(), addrBlk[a.coq()])
+	}
+	return "[" + strings.Join(xs, "; ") + "]"
+}
+
+// dumpHandles reads the IPAMHandle objects: handle -> block -> count, as a Coq term and as text.
+func dumpHandles(st *mb.Store) (string, string) {
+	var cs, ts []string
+	for _, kv := range st.Dump() {
+		hk, ok := kv.Key.(model.IPAMHandleKey)
+		if !ok {
+			continue
+		}
+		hv := kv.Value.(*model.IPAMHandle)
+		var cidrs []string
+		for c := range hv.Block {
+			cidrs = append(cidrs, c)
+		}
+		sort.Strings(cidrs)
+		var bs, bt []string
+		for _, c := range cidrs {
+			bs = append(bs, fmt.Sprintf("(%d%%N, %d%%nat)", blockIdx(c), hv.Block[c]))
+			bt = append(bt, fmt.Sprintf("%s:%d", c, hv.Block[c]))
+		}
+		cs = append(cs, fmt.Sprintf("(%s, [%s])", coqStr(hk.HandleID), strings.Join(bs, "; ")))
+		ts = append(ts, hk.HandleID+"{"+strings.Join(bt, " ")+"}")
+	}
+	return "[" + strings.Join(cs, "; ") + "]", strings.Join(ts, " ")
+}
+
 // dumpAlloc reads the allocation table out of the stored blocks: every allocated ordinal with a handle.
 func dumpAlloc(st *mb.Store) []pair {
 	var out []pair
@@ -143,7 +190,12 @@ func dumpAlloc(st *mb.Store) []pair {
 					h = *at.HandleID
 				}
 			}
-			out = append(out, pair{addrOfIP(b.OrdinalToIP(ord).IP), h})
+			a := addrOfIP(b.OrdinalToIP(ord).IP)
+			if _, ok := addrBlk[a.coq()]; !ok {
+				addrBlk[a.coq()] = blockIdx(kv.Key.(model.BlockKey).CIDR.String())
+				addrSeen = append(addrSeen, a)
+			}
+			out = append(out, pair{a, h})
 		}
 	}
 	sort.Slice(out, func(i, j int) bool { return out[i].a.less(out[j].a) })
@@ -706,6 +758,7 @@ func randAddrIn(r *rng, cidr string, span int) addr {
 
 func runCase(r *rng, idx int, tmp string, enc *json.Encoder, scripted int) {
 	ctx := context.Background()
+	resetBlocks()
 	w := &world{r: r, node: "node1", tags: map[string]bool{}}
 	w.lockPath = filepath.Join(tmp, "ipam.lock")
 	w.store = mb.NewStore()
@@ -780,6 +833,7 @@ func runCase(r *rng, idx int, tmp string, enc *json.Encoder, scripted int) {
 		w.tags["init:primary"] = true
 	}
 	init := dumpAlloc(w.store)
+	hrecs0, _ := dumpHandles(w.store)
 	marker := r.chance(70)
 	setMarker(marker)
 	if !canMarker {
@@ -931,8 +985,27 @@ func runCase(r *rng, idx int, tmp string, enc *json.Encoder, scripted int) {
 		} else {
 			opCoq = fmt.Sprintf("(OpDel %s)", c.coq(netname))
 		}
-		steps = append(steps, fmt.Sprintf("(Build_step %s [%s] %s %v %s)",
-			opCoq, strings.Join(callsCoq, "; "), res, markerPresent(), coqPairs(after)))
+		nofault := true
+		for _, cr := range w.inj.calls {
+			if cr.fault != "none" {
+				nofault = false
+			}
+		}
+		hrecsCoq, hrecsText := dumpHandles(w.store)
+		multiBlock := false
+		for _, kv := range w.store.Dump() {
+			if hv, ok := kv.Value.(*model.IPAMHandle); ok && len(hv.Block) > 1 {
+				multiBlock = true
+			}
+		}
+		if multiBlock {
+			w.tags["handle-spans-blocks"] = true
+			if !nofault {
+				w.tags["fault-while-handle-spans-blocks"] = true
+			}
+		}
+		steps = append(steps, fmt.Sprintf("(Build_step2 (Build_step %s [%s] %s %v %s) %v %s)",
+			opCoq, strings.Join(callsCoq, "; "), res, markerPresent(), coqPairs(after), nofault, hrecsCoq))
 		kind := "DEL"
 		if isAdd {
 			kind = "ADD " + q.String()
@@ -941,7 +1014,7 @@ func runCase(r *rng, idx int, tmp string, enc *json.Encoder, scripted int) {
 		if c.k8s {
 			who += "(" + c.ns + "/" + c.pod + ")"
 		}
-		sample = append(sample, fmt.Sprintf("%s %s: %s => %s ; store %s", kind, who, strings.Join(callsText, ", "), resText, strPairs(after)))
+		sample = append(sample, fmt.Sprintf("%s %s: %s => %s ; store %s", kind, who, strings.Join(callsText, ", "), resText, strPairs(after)+" handles "+hrecsText))
 		keyParts = append(keyParts, opCoq+strings.Join(callsText, ","))
 		ad, _ := diff(before, after)
 		if isAdd && len(ad) > 0 {
@@ -981,7 +1054,7 @@ func runCase(r *rng, idx int, tmp string, enc *json.Encoder, scripted int) {
 		tags = append(tags, t)
 	}
 	sort.Strings(tags)
-	coq := fmt.Sprintf("(Build_case %s %v [%s])", coqPairs(init), marker, strings.Join(steps, ";\n "))
+	coq := fmt.Sprintf("(Build_case2 %s %v %s %s [%s])", coqPairs(init), marker, coqBlkMap(), hrecs0, strings.Join(steps, ";\n "))
 	_ = enc.Encode(line{Coq: coq, NT: okDelAfterAlloc && (w.faults > 0 || rollback || w.tags["natural-short-family"]),
 		Key:    fmt.Sprintf("%s|%v|%s", coqPairs(init), marker, strings.Join(keyParts, ";")),
 		Sample: map[string]any{"case": idx, "net": netname, "init": strPairs(init), "marker": marker, "steps": sample}, Tags: tags})
